@@ -1,7 +1,7 @@
 '''C16: the compliance gate accepts exactly the engines that follow the architecture
 (spec/Gate.tla, tools/compliant.py).
 
- 1. MC      TLC enumerates the descriptor space [kinds, shape, viol, pos] and checks
+ 1. MC      (quick: folded into the GEN run; thorough: own runs) TLC enumerates the descriptor space [kinds, shape, vals, viol, pos] and checks
             that the transcription of _walk/_verify (repaired form) decides exactly
             Accept(d) = (d.viol = "none"); a second run with the traversal of the
             pinned tree lists the descriptors on which that traversal disagrees
@@ -18,8 +18,8 @@
 
 thorough runs the whole space through the in-process gate and 640 packages through
 the command; quick runs every conforming descriptor and 8 seeded members (kind subset
-x shape) of every stratum (violated clause, factory kind, element), 32 through the
-command.
+x shape) of every stratum (violated clause, factory kind, element, value layout), 32
+through the command.
 
 Interpretation choices
  * A violation is one clause of the CODE of rule_01..rule_11.  rule_03's text says
@@ -69,13 +69,16 @@ def _book(chk, name, module, cfg_kwargs, res, expect_ok=True):
         raise core.Machinery(f'model {name} violates {res.violated}; see {chk.work}/{name}.out')
 
 
-def model_runs(chk):
-    '''the three TLC runs over the descriptor space (independent, run side by side)'''
+def model_runs(chk, thorough):
+    '''TLC runs over the descriptor space.  quick: one run (Gate_Gen) that checks the invariants of
+    Gate_MC on the claimed descriptors and exports all cases; thorough: additionally Gate_MC on its
+    own and the traversal of the pinned tree (informational list of disagreements), side by side'''
     runs = {
-        'mc': ('Gate_MC.tla', dict(spec='Spec', constants={'Pinned': 'FALSE'}, invariants=['TypeOK', 'WalkAgrees']), 4),
-        'mc_pinned': ('Gate_MC.tla', dict(spec='Spec', constants={'Pinned': 'TRUE'}, invariants=['TypeOK', 'Report']), 1),
-        'gen': ('Gate_Gen.tla', dict(spec='GenSpec', constants={'Pinned': 'FALSE'}, invariants=['GenOK', 'Emit']), 1),
+        'gen': ('Gate_Gen.tla', dict(spec='GenSpec', constants={'Pinned': 'FALSE'}, invariants=['GenOK', 'GenTypeOK', 'GenWalkAgrees', 'Emit']), 1),
     }
+    if thorough:
+        runs['mc'] = ('Gate_MC.tla', dict(spec='Spec', constants={'Pinned': 'FALSE'}, invariants=['TypeOK', 'WalkAgrees']), 4)
+        runs['mc_pinned'] = ('Gate_MC.tla', dict(spec='Spec', constants={'Pinned': 'TRUE'}, invariants=['TypeOK', 'Report']), 1)
     with concurrent.futures.ThreadPoolExecutor(3) as ex:
         futs = {n: ex.submit(_tlc, chk, n, m, c, w) for n, (m, c, w) in runs.items()}
         res = {n: f.result() for n, f in futs.items()}
@@ -83,26 +86,26 @@ def model_runs(chk):
         _book(chk, n, m, c, res[n])
     cases = [json.loads(r[1]) for r in tlc.printed(res['gen'], 'CASE')]
     names = tlc.printed(res['gen'], 'VIOLNAMES')
-    disagree = [(json.loads(r[1]), r[2]) for r in tlc.printed(res['mc_pinned'], 'DISAGREE')]
+    disagree = [(json.loads(r[1]), r[2]) for r in tlc.printed(res['mc_pinned'], 'DISAGREE')] if thorough else None
     if not cases or not names:
         raise core.Machinery('generation produced no cases')
     return cases, set(json.loads(names[0][1])), disagree
 
 
 def dkey(d):
-    return json.dumps([sorted(d['kinds']), d['shape'], d['viol'], d['pos']['k'], d['pos']['e']])
+    return json.dumps([sorted(d['kinds']), d['shape'], d.get('vals', 'own'), d['viol'], d['pos']['k'], d['pos']['e']])
 
 
 def signature(d, ev):
-    return f'viol={d["viol"]}@{d["pos"]["k"]}/{d["pos"]["e"]}:kinds={"+".join(sorted(d["kinds"])) or "-"}:shape={d["shape"]}:{ev}'
+    return f'viol={d["viol"]}@{d["pos"]["k"]}/{d["pos"]["e"]}:kinds={"+".join(sorted(d["kinds"])) or "-"}:shape={d["shape"]}:vals={d.get("vals", "own")}:{ev}'
 
 
 def stratified(cases, per, rnd):
     '''quick tier: every conforming descriptor, the factory-less one, and `per` seeded members
-    (kind subset x shape) of every stratum (violated clause, factory kind, element)'''
+    (kind subset x shape) of every stratum (violated clause, factory kind, element, value layout)'''
     strata = {}
     for d in cases:
-        strata.setdefault((d['viol'], d['pos']['k'], d['pos']['e']), []).append(d)
+        strata.setdefault((d['viol'], d['pos']['k'], d['pos']['e'], d['vals']), []).append(d)
     out = []
     for key in sorted(strata):
         members = strata[key]
@@ -174,7 +177,7 @@ def run(pid, tier, seed, replay=None):
         execute(chk, pid, [job])
         return chk.finish('replay of one recorded descriptor')
     # 1 + 2
-    cases, names, disagree = model_runs(chk)
+    cases, names, disagree = model_runs(chk, tier == 'thorough')
     covered = {d['viol'] for d in cases}
     if names - covered:
         raise core.Machinery(f'vacuous: no descriptor carries {sorted(names - covered)}')
@@ -208,12 +211,12 @@ def run(pid, tier, seed, replay=None):
         if not n[k]:
             raise core.Machinery(f'vacuous run: no {k} record')
     bad_ids = {r[1] for r in rows['CLAUSE'] if r[3] == 'verify'}
-    pinned_ids = {dkey(d) for d, _ in disagree}
     chk.counters.update(
         descriptors_enumerated=total,
         descriptors=len(cases),
         conforming=n['conforming'],
         violating=n['violating'],
+        shared_value_class=sum(1 for t in recs.values() if t['d']['vals'] == 'shared'),
         violation_clauses=len(names),
         violation_clause_x_kind=len(claimed_viol),
         accepted_by_gate=n['accepted'],
@@ -223,15 +226,19 @@ def run(pid, tier, seed, replay=None):
         scheduled_ok=n['sched_ok'],
         observed_unclaimed=n['observed'],
         observed_unclaimed_accepted=sum(1 for r in rows['OBSERVE'] if r[5]),
-        pinned_model_disagreements=len(disagree),
-        pinned_model_rejects_conforming=sum(1 for _, w in disagree if w == 'rejects-conforming'),
-        pinned_model_accepts_violating=sum(1 for _, w in disagree if w == 'accepts-violating'),
         distinct_nontrivial=len({dkey(t['d']) for t in recs.values()}),
     )
-    wrong = {dkey(recs[i]['d']) for i in bad_ids}
-    judged = {dkey(t['d']) for t in recs.values()}
-    # reporting only: which transcription of _walk the verdicts of the real gate coincide with
-    chk.extra['real_gate_behaves_like'] = 'repaired traversal (r.feedback())' if not wrong else 'pinned traversal (a.feedback())' if wrong == pinned_ids & judged else 'neither transcription'
+    if disagree is not None:
+        pinned_ids = {dkey(d) for d, _ in disagree}
+        chk.counters.update(
+            pinned_model_disagreements=len(disagree),
+            pinned_model_rejects_conforming=sum(1 for _, w in disagree if w == 'rejects-conforming'),
+            pinned_model_accepts_violating=sum(1 for _, w in disagree if w == 'accepts-violating'),
+        )
+        wrong = {dkey(recs[i]['d']) for i in bad_ids}
+        judged = {dkey(t['d']) for t in recs.values()}
+        # reporting only: which transcription of _walk the verdicts of the real gate coincide with
+        chk.extra['real_gate_behaves_like'] = 'repaired traversal (r.feedback())' if not wrong else 'pinned traversal (a.feedback())' if wrong == pinned_ids & judged else 'neither transcription'
     some = rnd.sample(sorted(recs), 4)
     chk.samples = [{'d': recs[i]['d'], 'steps': [{'ev': s['ev'], **{k: s['obs'][k] for k in ('v_list', 'v_scan', 'fired', 'cli_rc', 'sched_ok')}} for s in recs[i]['steps'][1:]]} for i in some]
     chk.assumptions = [
